@@ -502,6 +502,37 @@ pub fn run(ctx: &Ctx) {
             judge_long(&stream, c[2] == 1, &format!("shape {} with {} messages", c[1], n), loc);
         }).chunk(1).trace(4));
     }
+    // many distinct ids on BOTH sides of a merge (size-gated index structures), and more distinct ids
+    // in one table than any plausible bound
+    {
+        let nids = ctx.tier.pick(5000usize, 12_000usize);
+        let ids: Vec<&'static str> = (0..nids.max(101_000)).map(|i| {
+            // 4 characters over a 62-symbol alphabet
+            let a = b"0123456789abcdefghijklmnopqrstuvwxyzABCDEFGHIJKLMNOPQRSTUVWXYZ";
+            let mut s = String::new();
+            let mut j = i;
+            for _ in 0..4 {
+                s.push(a[j % 62] as char);
+                j /= 62;
+            }
+            leak(s)
+        }).collect();
+        let t = types12();
+        let shapes = ctx.tier.pick(1usize, 2usize);
+        let (ids, t) = (&ids, &t);
+        ctx.run_family(Family::new("c10.many_ids", (shapes * 2) as u64, format!("a stream of {} messages cycling twice through {} distinct context ids (x 37 application ids x 5 ECU ids): both halves know every id (merges of two tables of {} ids each); thorough: also 101000 messages with 101000 distinct context ids, split 100800 + 200; x storage mode", 2 * nids, nids, nids), move |i, loc| {
+            let storage = i % 2 == 1;
+            let big = i / 2 == 1;
+            let n = if big { 101_000 } else { 2 * nids };
+            let stream: Vec<Sym> = (0..n)
+                .map(|j| {
+                    let (mt, mi) = t[(j * 5) % 12];
+                    Sym { ecu: if j % 6 == 5 { None } else { Some(ids[j % 5]) }, ext: Some((mt, mi, j % 3 != 0, ids[100 + j % 37], ids[if big { j } else { j % nids }])) }
+                })
+                .collect();
+            judge_long(&stream, storage, &format!("{} messages over {} distinct context ids", n, if big { n } else { nids }), loc);
+        }).chunk(1).trace(0));
+    }
     // directly constructed statistics with large counters: merge is an exact sum
     {
         let vals: Vec<usize> = vec![0, 1, 255, 256, 65_535, 65_536, (1usize << 31) - 1, 1usize << 31, (1usize << 32) - 1, 1usize << 32, (1usize << 32) + 5, usize::MAX / 2 - 3];
